@@ -262,6 +262,8 @@ structure PInv (s : St) (p : Nat) : Prop where
     ∀ q, q < s.nq → (s.qs q).cpc ≠ .exited → (s.qs q).ch ≠ c
   addref_idle : ∀ q, (s.prods p).pc = .addRef q → (s.qs q).cpc = .idle
   cas_nonneg : ∀ q r, ((s.prods p).pc = .fastCas q r ∨ (s.prods p).pc = .slowCas q r) → 0 ≤ r
+  /-- a producer about to `CompareAndDelete` has seen the queue claimed (and claims are final) -/
+  del_claimed : ∀ q, (s.prods p).pc = .slowDel q → (s.qs q).refs < 0
 
 /-- global facts -/
 structure GInv (s : St) : Prop where
@@ -321,7 +323,8 @@ theorem PInv.frame {s s' : St} {p : Nat} (h : PInv s p) (hp : s'.prods p = s.pro
     (hch : ∀ c, PcC (s.prods p).pc c → s'.chans c = s.chans c)
     (hown : ∀ c, PcC (s.prods p).pc c → ∀ q, q < s'.nq → (s'.qs q).cpc ≠ .exited → (s'.qs q).ch = c →
       q < s.nq ∧ (s.qs q).cpc ≠ .exited ∧ (s.qs q).ch = c)
-    (hidle : ∀ q, (s.prods p).pc = .addRef q → (s'.qs q).cpc = (s.qs q).cpc) : PInv s' p := by
+    (hidle : ∀ q, (s.prods p).pc = .addRef q → (s'.qs q).cpc = (s.qs q).cpc)
+    (hdel : ∀ q, (s.prods p).pc = .slowDel q → (s.qs q).refs < 0 → (s'.qs q).refs < 0) : PInv s' p := by
   constructor
   · rw [hp]; intro q hq
     obtain ⟨a, b⟩ := h.pc_q q hq
@@ -334,6 +337,7 @@ theorem PInv.frame {s s' : St} {p : Nat} (h : PInv s p) (hp : s'.prods p = s.pro
     exact d q x y z
   · rw [hp]; intro q hq; rw [hidle q hq]; exact h.addref_idle q hq
   · rw [hp]; exact h.cas_nonneg
+  · rw [hp]; intro q hq; exact hdel q hq (h.del_claimed q hq)
 
 theorem pending_frame {s s' : St} {k : Nat} (hm : s'.map k = s.map k)
     (hq : ∀ q, s.map k = some q → s'.qs q = s.qs q ∧ s'.chans (s.qs q).ch = s.chans (s.qs q).ch) :
